@@ -3105,8 +3105,15 @@ coap_handle_request_put_block(coap_context_t *context,
           tmp_pdu->code = COAP_RESPONSE_CODE(231);
           coap_send_internal(session, tmp_pdu);
         }
-        coap_update_token(response, lg_srcv->last_token->length, lg_srcv->last_token->s);
-        coap_update_token(pdu, lg_srcv->last_token->length, lg_srcv->last_token->s);
+        /*
+         * last_token is only set once a block without the More bit has been
+         * seen. A peer can complete the body (as sized by its Size1) without
+         * ever sending one, then the token of this request stays in place.
+         */
+        if (lg_srcv->last_token) {
+          coap_update_token(response, lg_srcv->last_token->length, lg_srcv->last_token->s);
+          coap_update_token(pdu, lg_srcv->last_token->length, lg_srcv->last_token->s);
+        }
         /* Pass the assembled pdu and body to the application */
         goto give_app_data;
       }
